@@ -13,7 +13,7 @@ import (
 func init() {
 	register("C08", &propDef{
 		Title: "A finished bundle contains everything that was added or discovered",
-		Rules: []func(*Checker){ruleC08NoDrop, ruleC08Drain, ruleC08Callbacks, ruleC08Manifest, ruleC08SameJoin, ruleC08Lookup, ruleC08Meta, ruleCopiedWhenEmpty("C08.metacopy"), ruleArgOrder("C08.argorder"), ruleTracerNonNil("C08.tracer"), aliasRule(ruleC11JoinOrder, "C11.joinorder", "C08.finaladdr", 3)},
+		Rules: []func(*Checker){ruleC08NoDrop, ruleC08Drain, ruleC08Callbacks, ruleC08Manifest, ruleC08SameJoin, ruleC08Lookup, ruleC08Meta, ruleCopiedWhenEmpty("C08.metacopy"), ruleArgOrder("C08.argorder"), ruleTracerNonNil("C08.tracer"), ruleNameAgreement("C08.names", "sourcebundle"), aliasRule(ruleC11JoinOrder, "C11.joinorder", "C08.finaladdr", 3)},
 		NotDecided: []string{
 			"transitive closure over arbitrary dependency graphs and the content of fetched files (run-time facts)",
 			"that looked-up paths exist on disk",
@@ -22,7 +22,7 @@ func init() {
 	register("C09", &propDef{
 		Title: "A bundle survives being re-opened and archived",
 		Rules: []func(*Checker){ruleC09Fields, ruleC09Archive, ruleChecksum("C09.checksum"), ruleC06ManifestAs("C09.addrs"),
-			ruleRootSymmetric("C09.symmetric"), ruleLinkPrecise("C09.linkprecise"), ruleC09Answers, ruleLocalMemo("C09.localmemo"),
+			ruleRootSymmetric("C09.symmetric"), ruleLinkPrecise("C09.linkprecise"), ruleC09Answers, ruleLocalMemo("C09.localmemo"), ruleNameAgreement("C09.names", "sourcebundle"),
 			aliasRuleFiltered(ruleC02LinkTarget, "C02.linktarget", "C09.linktarget", 1, func(o Oblig) bool { return strings.Contains(o.Key, "Unpack") }),
 			aliasRuleFiltered(ruleC06CanonURL, "C06.canonurl", "C09.canonkey", 1, func(o Oblig) bool { return strings.Contains(o.Key, "canonical") }),
 			aliasRuleFiltered(ruleC13Maps, "C13.maps", "C09.lookup", 3, func(o Oblig) bool {
@@ -2425,5 +2425,135 @@ func ruleBuilderAbsDir(id string) func(*Checker) {
 			})
 		}
 		_ = n
+	}
+}
+
+// ruleNameAgreement — same-typed values are not crossed over.
+func ruleNameAgreement(id string, pkgs ...string) func(*Checker) {
+	return func(c *Checker) {
+		c.rule(id, "Where a value with a name (a parameter, a struct field) is stored into a field, returned by an accessor, or passed as an argument, and the destination has a name too: if the destination is not named like the source but IS named like a sibling of the source of identical type (another parameter of the function, another field of the same struct), the two have been crossed over — gitCommitMessage stored as gitCommitID, subPath handed over as sourceType. 'Named like' ignores case and underscores and accepts one name being a suffix of the other (commitID / gitCommitID).", 3)
+		p := c.P
+		norm := func(s string) string { return strings.ToLower(strings.ReplaceAll(s, "_", "")) }
+		like := func(a, b string) bool {
+			a, b = norm(a), norm(b)
+			return a == b || (len(b) >= 4 && strings.HasSuffix(a, b)) || (len(a) >= 4 && strings.HasSuffix(b, a))
+		}
+		inScope := map[string]bool{}
+		for _, n := range pkgs {
+			inScope[p.PkgPath(n)] = true
+		}
+		// a named source: its name, type, and the names of its same-typed siblings
+		type named struct {
+			name     string
+			siblings []string
+		}
+		source := func(v ssa.Value, fn *ssa.Function) (named, bool) {
+			switch x := canon(v).(type) {
+			case *ssa.Parameter:
+				out := named{name: x.Name()}
+				for _, q := range x.Parent().Params {
+					if q != x && types.Identical(q.Type(), x.Type()) {
+						out.siblings = append(out.siblings, q.Name())
+					}
+				}
+				return out, true
+			case *ssa.Field, *ssa.UnOp:
+				f := loadedField(x)
+				if f == nil {
+					return named{}, false
+				}
+				var st *types.Struct
+				switch y := x.(type) {
+				case *ssa.Field:
+					st, _ = y.X.Type().Underlying().(*types.Struct)
+				case *ssa.UnOp:
+					if fa, ok := y.X.(*ssa.FieldAddr); ok {
+						st, _ = derefType(fa.X.Type()).Underlying().(*types.Struct)
+					}
+				}
+				out := named{name: f.Name()}
+				if st != nil {
+					for i := 0; i < st.NumFields(); i++ {
+						if g := st.Field(i); g != f && types.Identical(g.Type(), f.Type()) {
+							out.siblings = append(out.siblings, g.Name())
+						}
+					}
+				}
+				return out, true
+			}
+			return named{}, false
+		}
+		crossed := func(src named, dst string) (string, bool) {
+			if like(src.name, dst) {
+				return "", false
+			}
+			for _, sname := range src.siblings {
+				if like(sname, dst) {
+					return sname, true
+				}
+			}
+			return "", false
+		}
+		for _, fn := range p.Funcs {
+			outer := p.Outer(fn)
+			if outer.Package() == nil || !inScope[outer.Package().Pkg.Path()] {
+				continue
+			}
+			name := p.FuncName(fn)
+			eachInstr(fn, func(in ssa.Instruction) {
+				switch x := in.(type) {
+				case *ssa.Store:
+					fa, ok := x.Addr.(*ssa.FieldAddr)
+					if !ok || fieldOf(fa) == nil {
+						return
+					}
+					if src, ok := source(x.Val, fn); ok {
+						if sib, bad := crossed(src, fieldOf(fa).Name()); bad {
+							c.fail(id, name, "field "+fieldOf(fa).Name()+" stored from "+src.name, p.Pos(x.Pos()), "the field "+fieldOf(fa).Name()+" is set from "+src.name+", while "+sib+" — same type, and named like the field — is at hand: the two values are crossed over")
+						} else {
+							c.pass(id, name, "field "+fieldOf(fa).Name()+" stored from "+src.name, p.Pos(x.Pos()), "names agree (or nothing to confuse it with)")
+						}
+					}
+				case *ssa.Return:
+					// an accessor: a method whose name is like a field of its receiver
+					if fn.Signature.Recv() == nil || len(x.Results) != 1 || fn.Object() == nil {
+						return
+					}
+					if src, ok := source(x.Results[0], fn); ok {
+						if _, isPrm := canon(x.Results[0]).(*ssa.Parameter); isPrm {
+							return
+						}
+						if sib, bad := crossed(src, fn.Object().Name()); bad {
+							c.fail(id, name, "accessor returns "+src.name, p.Pos(x.Pos()), "the method "+fn.Object().Name()+" returns the field "+src.name+", while the receiver has a field "+sib+" of the same type named like the method: it answers with the other value")
+						} else if like(src.name, fn.Object().Name()) {
+							c.pass(id, name, "accessor returns "+src.name, p.Pos(x.Pos()), "names agree")
+						}
+					}
+				case ssa.CallInstruction:
+					g := x.Common().StaticCallee()
+					if g == nil || !p.InModule(g) || len(g.Params) < 2 {
+						return
+					}
+					for i, a := range x.Common().Args {
+						if i >= len(g.Params) {
+							break
+						}
+						src, ok := source(a, fn)
+						if !ok {
+							continue
+						}
+						own := g.Params[i].Name()
+						if like(src.name, own) {
+							continue
+						}
+						for j, pj := range g.Params {
+							if j != i && types.Identical(pj.Type(), g.Params[i].Type()) && like(src.name, pj.Name()) {
+								c.fail(id, name, fmt.Sprintf("argument %d of %s is %s", i, g.Name(), src.name), p.Pos(x.Pos()), src.name+" is handed over as parameter "+own+" of "+g.Name()+", which also has a parameter "+pj.Name()+" of the same type: the arguments are crossed over")
+							}
+						}
+					}
+				}
+			})
+		}
 	}
 }
